@@ -104,6 +104,7 @@ func resourceAdversarial(r *Rng) string {
 		"s='x'; i=0; while i<40 { s = s + s; i=i+1 }; 1",
 		"s='x'; i=0; while i<60 { s = `{s}{s}`; i=i+1 }; 1",
 		"xs=[1,2]; i=0; while i<20 { xs = xs + xs; i=i+1 }",
+		"lst=[3..0]; i=0; while i<40 { lst[1:2] = lst; i=i+1 }; lst.len()", "lst=[3..0]; func grow() { lst[1:2] = lst; n = grow(); return n }; grow()", "xs=[1..400]; i=0; while i<2000 { xs.push(i); i=i+1 }; xs.len()",
 		"xs=[[1]]; i=0; while i<40 { xs = [xs, xs]; i=i+1 }; xs",
 		"o={'k':1}; i=0; while i<40 { o = {'a':o,'b':o}; i=i+1 }; o",
 		"func rr(n) { return rr(n+1) }; rr(0)",
